@@ -25,7 +25,7 @@ def cli_model(prog):
 
 
 def _cli_model(prog):
-    fi = prog.fn("__main__._build_parser")
+    fi = prog.fn_role("__main__._build_parser", "build_parser")
     folder = Folder(prog)
     subs = {}  # var name -> sub-command name
     for n in ast.walk(fi.node):
